@@ -14,6 +14,11 @@ FLAVOUR = {
    B. an ARGUMENT-TYPE or API-VARIANT slip: the public API accepts several forms (str / bytes / bytearray / memoryview, str / os.PathLike, list / tuple / generator / mapping, keyword / positional, subclass instances, None vs missing vs empty, int vs numeric string, already-encoded vs text) and one legal form is now handled wrongly while the common form keeps working.
    C. a PERFORMANCE-motivated rewrite: caching (functools.lru_cache, a dict, precomputed attributes), a fast path / early exit, a precompiled or 'simplified' regular expression, replacing a loop by slicing/join/str methods, avoiding a copy - correct for common inputs, wrong for some specific legal ones.
  Ordinary everyday use must keep working - do NOT make a change that the first simple request would expose.""",
+ 6: """This round: make one change of each of these three kinds:
+   A. a change in a SHARED module that the property's own code merely uses - baize/utils.py, baize/datastructures.py, baize/requests.py, baize/responses.py, baize/routing.py, baize/staticfiles.py, baize/concurrency.py, baize/exceptions.py, baize/typing.py, baize/multipart.py, a base class or a helper function - so that the property breaks INDIRECTLY (the files listed above as 'directly involved' stay untouched if at all possible).
+   B. a classic PYTHON-SEMANTICS slip inside the directly involved code: mutable default argument or class attribute, late-binding closure, `is` vs `==`, `or` used for a default where 0 / '' / empty is legal, bytes vs str mix-up, shallow copy where a deep one is needed (or aliasing a caller's object), exhausted iterator reused, dict/set ordering assumption, exception swallowed by a broad except or by `return` in `finally`, wrong operator precedence, off-by-one in a slice or range, `lower()` vs `casefold()`, regex anchoring / flags / greedy vs lazy, integer division or rounding, `str.strip(chars)` misuse, `sorted` stability or key mistakes.
+   C. a change whose wrong behaviour appears only for inputs of a particular SIZE or COUNT class: exactly at a buffer / chunk / limit boundary, only for more than N items, only for values longer than some threshold, only for the empty case of something that is usually non-empty.
+ Ordinary everyday use must keep working - do NOT make a change that the first simple request would expose.""",
  5: """This round is about interactions; make three changes, each of which needs TWO things at once to show (neither alone exposes it): e.g. a feature used through a second public entry point, inside a mount or middleware, on the second use of an object, with a particular header present, with a particular chunking AND a particular content, on one interface only AND only for one method. Ordinary everyday use must keep working - do NOT make a change that the first simple request would expose.""",
 }
 
